@@ -19,7 +19,9 @@ use crate::verif::kernel::{self, Exit, RunParams};
 use crate::verif::refcodec::link as reflink;
 use crate::verif::refcodec::link::RefFrame;
 use crate::verif::rng::{mix, Rng};
-use crate::verif::runner::{erase, shrink_vec, Codec, Outcome, Property, Scenario, Tier, Violation};
+use crate::verif::runner::{
+    erase, shrink_vec, Codec, Outcome, Property, Scenario, Tier, Violation,
+};
 use serde::{Deserialize, Serialize};
 use std::sync::{Arc, Mutex};
 
@@ -37,15 +39,26 @@ pub struct LinkAddrScenario;
 pub fn property<C: Codec>() -> Property {
     Property {
         id: "C07",
-        scenarios: vec![erase::<C, _>(LinkAddrScenario), erase::<C, _>(super::c07_app::AppAddrScenario)],
+        scenarios: vec![
+            erase::<C, _>(LinkAddrScenario),
+            erase::<C, _>(super::c07_app::AppAddrScenario),
+        ],
     }
 }
 
 #[derive(Clone, Debug, PartialEq)]
 enum Up {
-    Data { src: u16, bcast: Option<u16>, payload: Vec<u8> },
-    LinkStatusRequest { src: u16 },
-    LinkStatusResponse { src: u16 },
+    Data {
+        src: u16,
+        bcast: Option<u16>,
+        payload: Vec<u8>,
+    },
+    LinkStatusRequest {
+        src: u16,
+    },
+    LinkStatusResponse {
+        src: u16,
+    },
 }
 
 #[derive(Clone, Debug, PartialEq)]
@@ -325,7 +338,13 @@ impl Scenario for LinkAddrScenario {
     }
 
     fn real_components(&self) -> Vec<&'static str> {
-        vec!["link::layer::Layer", "link::reader::Reader", "link::parser", "link::format", "link::header"]
+        vec![
+            "link::layer::Layer",
+            "link::reader::Reader",
+            "link::parser",
+            "link::format",
+            "link::header",
+        ]
     }
 
     fn stub_components(&self) -> Vec<&'static str> {
@@ -361,7 +380,10 @@ impl Scenario for LinkAddrScenario {
                 0
             };
             let ctrl = if rng.chance(3, 4) {
-                let base = *rng.pick(&[0x40u8, 0x53, 0x73, 0x44, 0x49, 0x0B, 0x00, 0x42, 0x52, 0x72, 0x54, 0x59, 0x50, 0x43, 0x63, 0x0F, 0x01]);
+                let base = *rng.pick(&[
+                    0x40u8, 0x53, 0x73, 0x44, 0x49, 0x0B, 0x00, 0x42, 0x52, 0x72, 0x54, 0x59, 0x50,
+                    0x43, 0x63, 0x0F, 0x01,
+                ]);
                 dir | base
             } else {
                 rng.u8()
@@ -375,7 +397,11 @@ impl Scenario for LinkAddrScenario {
             } else {
                 rng.range(0xFFF0, 0xFFFF) as u16
             };
-            let plen = if rng.chance(1, 3) { 0 } else { rng.urange(1, 20) };
+            let plen = if rng.chance(1, 3) {
+                0
+            } else {
+                rng.urange(1, 20)
+            };
             frames.push(RefFrame {
                 ctrl,
                 dest: gen_addr(rng, local, other),
@@ -420,7 +446,8 @@ impl Scenario for LinkAddrScenario {
     fn execute(&self, case: &Case, log: bool) -> Outcome {
         let mut outcome = Outcome::default();
         let ups: Arc<Mutex<Vec<Up>>> = Arc::new(Mutex::new(Vec::new()));
-        let verdicts: Arc<Mutex<(Option<Violation>, Vec<&'static str>)>> = Arc::new(Mutex::new((None, Vec::new())));
+        let verdicts: Arc<Mutex<(Option<Violation>, Vec<&'static str>)>> =
+            Arc::new(Mutex::new((None, Vec::new())));
         let case2 = case.clone();
         let ups2 = ups.clone();
         let verdicts2 = verdicts.clone();
@@ -433,7 +460,13 @@ impl Scenario for LinkAddrScenario {
             let case = case2;
             let inbox = io::new_chan();
             let outbox = io::new_chan();
-            let sock = SimSocket::new("layer", inbox.clone(), outbox.clone(), ChunkMode::from_index(case.chunk as u64), 7);
+            let sock = SimSocket::new(
+                "layer",
+                inbox.clone(),
+                outbox.clone(),
+                ChunkMode::from_index(case.chunk as u64),
+                7,
+            );
             let local = EndpointAddress::try_new(case.local).expect("endpoint address");
             let is_master = case.is_master;
             let self_address = case.self_address;
@@ -446,13 +479,24 @@ impl Scenario for LinkAddrScenario {
                         read_mode: LinkReadMode::Stream,
                     },
                     2048,
-                    if is_master { EndpointType::Master } else { EndpointType::Outstation },
-                    if self_address { Feature::Enabled } else { Feature::Disabled },
+                    if is_master {
+                        EndpointType::Master
+                    } else {
+                        EndpointType::Outstation
+                    },
+                    if self_address {
+                        Feature::Enabled
+                    } else {
+                        Feature::Disabled
+                    },
                     local,
                 );
                 let mut payload = FramePayload::new();
                 loop {
-                    match layer.read(&mut phys, DecodeLevel::nothing(), &mut payload).await {
+                    match layer
+                        .read(&mut phys, DecodeLevel::nothing(), &mut payload)
+                        .await
+                    {
                         Ok(info) => {
                             let src = info.source.raw_value();
                             let up = match info.frame_type {
@@ -487,14 +531,29 @@ impl Scenario for LinkAddrScenario {
                 let new_ups: Vec<Up> = all[seen_up..].to_vec();
                 seen_up = all.len();
                 // what was written in reply
-                let replies: Vec<u8> = io::chan_drain(&outbox).into_iter().flat_map(|x| x.1).collect();
+                let replies: Vec<u8> = io::chan_drain(&outbox)
+                    .into_iter()
+                    .flat_map(|x| x.1)
+                    .collect();
                 let parsed = reflink::deframe(&replies, false);
                 let mut v = None;
-                if parsed.first_error.is_some() || parsed.frames.iter().map(|(_, f)| 10 + reflink::body_len(f.payload.len())).sum::<usize>() != replies.len() {
+                if parsed.first_error.is_some()
+                    || parsed
+                        .frames
+                        .iter()
+                        .map(|(_, f)| 10 + reflink::body_len(f.payload.len()))
+                        .sum::<usize>()
+                        != replies.len()
+                {
                     v = Some(Violation::new(
                         "C07/link reply-malformed",
                         verdict.class,
-                        format!("frame #{} {:?}: reply octets are not well-formed link frames: {}", i, f, io::hex(&replies)),
+                        format!(
+                            "frame #{} {:?}: reply octets are not well-formed link frames: {}",
+                            i,
+                            f,
+                            io::hex(&replies)
+                        ),
                     ));
                 }
                 if v.is_none() {
@@ -526,10 +585,18 @@ impl Scenario for LinkAddrScenario {
                 }
                 if v.is_none() {
                     if let Expect::Exactly(want) = &verdict.reply {
-                        let got: Vec<(u8, u16, u16)> = parsed.frames.iter().map(|(_, r)| (r.ctrl, r.dest, r.src)).collect();
+                        let got: Vec<(u8, u16, u16)> = parsed
+                            .frames
+                            .iter()
+                            .map(|(_, r)| (r.ctrl, r.dest, r.src))
+                            .collect();
                         let ok = match want {
                             None => got.is_empty(),
-                            Some(r) => got.len() == 1 && got[0] == *r && parsed.frames[0].1.payload.is_empty(),
+                            Some(r) => {
+                                got.len() == 1
+                                    && got[0] == *r
+                                    && parsed.frames[0].1.payload.is_empty()
+                            }
                         };
                         if !ok {
                             v = Some(Violation::new(
@@ -572,16 +639,25 @@ impl Scenario for LinkAddrScenario {
             Exit::Done => {}
             Exit::Panic(task, msg, loc) => {
                 if loc.contains("/verif/") {
-                    outcome.harness_error = Some(format!("harness panic in {}: {} at {}", task, msg, loc));
+                    outcome.harness_error =
+                        Some(format!("harness panic in {}: {} at {}", task, msg, loc));
                 } else {
-                    outcome.violation = Some(Violation::new("C07/panic", loc.clone(), format!("task {} panicked: {} at {}", task, msg, loc)));
+                    outcome.violation = Some(Violation::new(
+                        "C07/panic",
+                        loc.clone(),
+                        format!("task {} panicked: {} at {}", task, msg, loc),
+                    ));
                 }
                 return outcome;
             }
             other => {
                 outcome.violation = Some(Violation::new(
                     "C07/link no-termination",
-                    format!("{:?}", other).split('(').next().unwrap_or("").to_string(),
+                    format!("{:?}", other)
+                        .split('(')
+                        .next()
+                        .unwrap_or("")
+                        .to_string(),
                     format!("link layer did not finish: {:?}", other),
                 ));
                 return outcome;
@@ -599,12 +675,20 @@ impl Scenario for LinkAddrScenario {
         for c in &classes {
             let ignored = matches!(
                 *c,
-                "same-station-type" | "reserved-source" | "self-address-disabled" | "broadcast-to-master" | "reserved-destination" | "other-destination"
+                "same-station-type"
+                    | "reserved-source"
+                    | "self-address-disabled"
+                    | "broadcast-to-master"
+                    | "reserved-destination"
+                    | "other-destination"
             ) || c.starts_with("broadcast");
             if ignored && armed {
                 nontrivial = true;
             }
-            if matches!(*c, "reset-link" | "confirmed-data-accepted" | "unconfirmed-data") {
+            if matches!(
+                *c,
+                "reset-link" | "confirmed-data-accepted" | "unconfirmed-data"
+            ) {
                 armed = true;
             }
             let mut ch = 0u64;
@@ -612,11 +696,25 @@ impl Scenario for LinkAddrScenario {
                 ch = ch.wrapping_mul(31).wrapping_add(b as u64);
             }
             h = mix(&[h, ch]);
-            outcome.count(&format!("cell.{}.{}", if case.is_master { "master" } else { "outstation" }, c), 1);
+            outcome.count(
+                &format!(
+                    "cell.{}.{}",
+                    if case.is_master {
+                        "master"
+                    } else {
+                        "outstation"
+                    },
+                    c
+                ),
+                1,
+            );
         }
         outcome.nontrivial = nontrivial;
         outcome.fingerprint = h;
-        outcome.count("fault.rechunk", report.counters.get("phys_reads").copied().unwrap_or(0));
+        outcome.count(
+            "fault.rechunk",
+            report.counters.get("phys_reads").copied().unwrap_or(0),
+        );
         outcome
     }
 }
